@@ -170,34 +170,41 @@ Contains(seq, x) == \E i \in 1 .. Len(seq) : PEq(seq[i], x)
 RECURSIVE Digits(_)
 Digits(n) == IF n < 10 THEN <<48 + n>> ELSE Digits(n \div 10) \o <<48 + (n % 10)>>
 
-\* attach paths: IMPL(path_value.rs:359-405) extend_str / extend_usize
-RECURSIVE WithPaths(_, _)
-WithPaths(v, p) ==
+\* attach paths: IMPL(path_value.rs:359-405) extend_str / extend_usize.  `o` records where the
+\* value comes from: "d" the data document, "l" the rules file (literals).  Neither p nor o is
+\* ever looked at by a comparison.
+RECURSIVE WithPathsO(_, _, _)
+WithPathsO(v, p, o) ==
   CASE v.t = "list" ->
-         [t |-> "list", p |-> p,
-          v |-> [i \in 1 .. Len(v.v) |-> WithPaths(v.v[i], Append(p, Digits(i - 1)))]]
+         [t |-> "list", p |-> p, o |-> o,
+          v |-> [i \in 1 .. Len(v.v) |-> WithPathsO(v.v[i], Append(p, Digits(i - 1)), o)]]
     [] v.t = "map" ->
-         [t |-> "map", p |-> p, k |-> v.k,
-          v |-> [i \in 1 .. Len(v.v) |-> WithPaths(v.v[i], Append(p, v.k[i]))]]
-    [] OTHER -> [x \in (DOMAIN v) \cup {"p"} |-> IF x = "p" THEN p ELSE v[x]]
+         [t |-> "map", p |-> p, o |-> o, k |-> v.k,
+          v |-> [i \in 1 .. Len(v.v) |-> WithPathsO(v.v[i], Append(p, v.k[i]), o)]]
+    [] OTHER -> [x \in (DOMAIN v) \cup {"p", "o"} |-> IF x = "p" THEN p ELSE IF x = "o" THEN o ELSE v[x]]
+
+\* a literal of the rules file
+WithPaths(v, p) == WithPathsO(v, p, "l")
+\* the data document
+DocPaths(doc) == WithPathsO(doc, <<>>, "d")
 
 \* strip paths (for printing / comparing values structurally)
 RECURSIVE NoPaths(_)
 NoPaths(v) ==
   CASE v.t = "list" -> [t |-> "list", v |-> [i \in 1 .. Len(v.v) |-> NoPaths(v.v[i])]]
     [] v.t = "map" -> [t |-> "map", k |-> v.k, v |-> [i \in 1 .. Len(v.v) |-> NoPaths(v.v[i])]]
-    [] OTHER -> [x \in (DOMAIN v) \ {"p"} |-> v[x]]
+    [] OTHER -> [x \in (DOMAIN v) \ {"p", "o"} |-> v[x]]
 
 \* Resolve(doc, path): the sub-value a slash pointer denotes, or "none"
 RECURSIVE Resolve(_, _, _)
 Resolve(v, p, i) ==
   IF i > Len(p) THEN v
   ELSE IF v.t = "map" THEN
-         LET j == KeyIndex(v, p[i]) IN IF j = 0 THEN "none" ELSE Resolve(v.v[j], p, i + 1)
+         LET j == KeyIndex(v, p[i]) IN IF j = 0 THEN [t |-> "none"] ELSE Resolve(v.v[j], p, i + 1)
   ELSE IF v.t = "list" THEN
          LET cands == {j \in 1 .. Len(v.v) : Digits(j - 1) = p[i]} IN
-         IF cands = {} THEN "none" ELSE Resolve(v.v[CHOOSE j \in cands : TRUE], p, i + 1)
-  ELSE "none"
+         IF cands = {} THEN [t |-> "none"] ELSE Resolve(v.v[CHOOSE j \in cands : TRUE], p, i + 1)
+  ELSE [t |-> "none"]
 
 ---------------------------------------------------------------------------
 (* merge: IMPL(path_value.rs:889-919); DOC(README "input parameters")      *)
